@@ -45,6 +45,8 @@ def compare(ctx, job, m, o, tag, failed):
         if c["frame"] == frame:
             cnt[c["node"]] = cnt.get(c["node"], 0) + 1
     ref_cnt = aux["cnt"] if isinstance(aux["cnt"], dict) else {}
+    if meta["shape"] == "shared":
+        ref_cnt = {n: 10 ** 6 for n in loop_nodes(meta)}      # no sequential reference for this shape: compared with the model below
     if meta["shape"] == "oneshot":
         ref_cnt = {n: k for n, k in meta["expect"]}
     # never more executions of any loop node than the sequential loop performs
@@ -59,7 +61,7 @@ def compare(ctx, job, m, o, tag, failed):
         for n, k in meta["expect"]:
             if cnt.get(n, 0) != k:
                 return ctx.violation("stale-decision-reused", wit, f"{n} ran {cnt.get(n, 0)} times, expected {k}")
-    elif o["status"] == "completed":
+    elif o["status"] == "completed" and meta["shape"] != "shared":
         for n in loop_nodes(meta):
             if cnt.get(n, 0) != ref_cnt.get(n, 0):
                 k = classify_stall(job, o, aux) or "iteration-count"
@@ -68,10 +70,18 @@ def compare(ctx, job, m, o, tag, failed):
             env = aux["env"] if isinstance(aux["env"], dict) else {}
             if o["values"] != env:
                 return ctx.violation("final-values", wit, f"values {o['values']} sequential loop {env}")
+    elif o["status"] == "completed":
+        pass   # shape without a sequential reference: compared with the engine model below
     elif o["status"] == "failed" and o["err"]["kind"] == "infinite":
         pass  # partial values: compared with the model below (TLC checked the model's against the sequential loop: clause `prefix`)
     else:
         return ctx.violation("outcome", wit, f"status {o['status']} err {o['err']}")
+    if meta["shape"] == "shared":
+        cm = {}
+        for c in m["calls"]:
+            cm[c["node"]] = cm.get(c["node"], 0) + 1
+        if o["status"] == "completed" and m["status"] == "completed" and cm != cnt:
+            return ctx.violation("iteration-count-vs-model", wit, f"node executions {cnt}, engine model {cm}")
     # termination outcome and partial values: same as the L2 model (steps are a property-level notion here)
     if m["status"] != o["status"] or m["err"]["kind"] != o["err"]["kind"]:
         k = classify_stall(job, o, aux) or "termination"
@@ -115,6 +125,13 @@ def make_pairs(tier, rng):
                 j = gen.job(0, prog, prov, mode=mode)
                 j["meta"] = meta
                 pairs.append((j, f"oneshot/{gk}/{'open' if dopen else 'closed'}"))
+    for n in range(0, 4 if not thorough else 6):
+        for gk in ("route", "ifelse"):
+            for mode in ("sync", "async"):
+                prog, prov, meta = gen.shared_output_loop(n, gk)
+                j = gen.job(0, prog, prov, mode=mode)
+                j["meta"] = meta
+                pairs.append((j, f"shared-accumulators/{gk}/N{n}"))
     for i, (j, _) in enumerate(pairs):
         j["id"] = i + 1
     return pairs
